@@ -38,7 +38,23 @@
 (*                                                                         *)
 (* The module describes the IDEAL design (what the repaired code does);    *)
 (* the Dev... actions reproduce the behaviours of the pinned tree that the *)
-(* ideal design excludes.                                                  *)
+(* ideal design excludes:                                                  *)
+(*   DevQueuedPathUnverified      QUEUED_STATE commands bypass the flooder *)
+(*   DevMarkSeenBeforeVerify      cache entry made before verification     *)
+(*   DevCacheForgetsInsideWindow  TTL expiry of a still verifiable command *)
+(*   DevSizeEviction              size limit evicts such an entry          *)
+(*                                                                         *)
+(* Instances (checks/_sleepcmd.py generates MC module + cfg; a runnable    *)
+(* sample is MCSleepCmd.tla / MCSleepCmd.cfg):                             *)
+(*   flood  Paths = {sleep, wake}, clock 0..MaxClock, Maintenance          *)
+(*   aux    + unsigned mode, LocalIds, NewPeers (pending wake)             *)
+(*   agent  all four paths, one clock value, no Maintenance (a whole agent *)
+(*          offers no way to call cleanup())                               *)
+(* OneDev: a behaviour stops after its first deviation step; with all      *)
+(* deviations enabled this yields "ideal relation + one deviation step     *)
+(* from every ideal state", the relation replay mismatches are looked up   *)
+(* in.  Ghost variables (acted, bad, poisoned, suppressed, devsteps) never *)
+(* influence the other variables.                                          *)
 (***************************************************************************)
 EXTENDS Integers, Sequences, FiniteSets, TLC, Json
 
